@@ -34,7 +34,11 @@ type barrierInfo struct {
 	deferIdx int // index of the defer statement in the body
 	assigns  bool
 	lit      *ast.FuncLit
+	info     *types.Info // type information for lit's body (another package's when the barrier is a named function)
 }
+
+// barrierCtx resolves a named function deferred as a barrier (`defer py.RecoverError(&err)`) to its declaration.
+var barrierCtx *Ctx
 
 func findBarrier(info *types.Info, fd *ast.FuncDecl) *barrierInfo {
 	if fd.Body == nil || fd.Type.Results == nil {
@@ -56,7 +60,64 @@ func findBarrier(info *types.Info, fd *ast.FuncDecl) *barrierInfo {
 		}
 		fl, ok := ds.Call.Fun.(*ast.FuncLit)
 		if !ok {
-			continue
+			// a named function deferred directly: recover() called by that function itself (not by a closure
+			// inside it, where it would be inert) stops the panic exactly like the literal does; the error result
+			// is assigned through the pointer parameter that receives &err
+			if barrierCtx == nil {
+				continue
+			}
+			fn := Callee(info, ds.Call)
+			hd := barrierCtx.Decl(fn)
+			if fn == nil || hd == nil || hd.Body == nil || hd.Recv != nil {
+				continue
+			}
+			hinfo := barrierCtx.DeclPkg(fn).TypesInfo
+			direct := false
+			var visit func(n ast.Node) bool
+			visit = func(n ast.Node) bool {
+				switch x := n.(type) {
+				case *ast.FuncLit:
+					return false
+				case *ast.CallExpr:
+					if isBuiltinCall(hinfo, x, "recover") {
+						direct = true
+					}
+				}
+				return true
+			}
+			ast.Inspect(hd.Body, visit)
+			if !direct {
+				continue
+			}
+			// parameters that receive the address of the error result
+			errParams := map[types.Object]bool{}
+			pi := 0
+			for _, f := range hd.Type.Params.List {
+				for _, nm := range f.Names {
+					if pi < len(ds.Call.Args) {
+						if u, ok := unparen(ds.Call.Args[pi]).(*ast.UnaryExpr); ok && u.Op == token.AND {
+							if id := identOf(u.X); id != nil && errObj != nil && info.Uses[id] == errObj {
+								errParams[hinfo.Defs[nm]] = true
+							}
+						}
+					}
+					pi++
+				}
+			}
+			assigns := false
+			ast.Inspect(hd.Body, func(n ast.Node) bool {
+				if as, ok := n.(*ast.AssignStmt); ok {
+					for _, l := range as.Lhs {
+						if st, ok := unparen(l).(*ast.StarExpr); ok {
+							if id := identOf(st.X); id != nil && errParams[hinfo.Uses[id]] {
+								assigns = true
+							}
+						}
+					}
+				}
+				return true
+			})
+			return &barrierInfo{deferIdx: i, assigns: assigns, lit: &ast.FuncLit{Type: hd.Type, Body: hd.Body}, info: hinfo}
 		}
 		hasRecover, assigns := false, false
 		ast.Inspect(fl.Body, func(n ast.Node) bool {
@@ -75,7 +136,7 @@ func findBarrier(info *types.Info, fd *ast.FuncDecl) *barrierInfo {
 			return true
 		})
 		if hasRecover {
-			return &barrierInfo{deferIdx: i, assigns: assigns, lit: fl}
+			return &barrierInfo{deferIdx: i, assigns: assigns, lit: fl, info: info}
 		}
 	}
 	return nil
@@ -624,13 +685,26 @@ func defaultArmExhaustive(c *Ctx, p *packages.Package, fd *ast.FuncDecl, call *a
 		}
 		if as, ok := is.Init.(*ast.AssignStmt); ok {
 			collect(as)
+		} else {
+			// the statement directly in front of the test, in the same block (the flag may be a reused `ok`)
+			ast.Inspect(fd.Body, func(m ast.Node) bool {
+				var list []ast.Stmt
+				switch b := m.(type) {
+				case *ast.BlockStmt:
+					list = b.List
+				case *ast.CaseClause:
+					list = b.Body
+				}
+				for i := 1; i < len(list); i++ {
+					if list[i] == ast.Stmt(is) {
+						if as, ok := list[i-1].(*ast.AssignStmt); ok {
+							collect(as)
+						}
+					}
+				}
+				return true
+			})
 		}
-		ast.Inspect(fd.Body, func(m ast.Node) bool {
-			if as, ok := m.(*ast.AssignStmt); ok && ast.Stmt(as) != is.Init {
-				collect(as)
-			}
-			return true
-		})
 		if nAssign != 1 || len(lookups) != 1 {
 			return true
 		}
